@@ -138,7 +138,18 @@ func (r *foRun) startGet(p string) {
 	returned := false
 	r.ctxs[p] = ctx
 
-	r.s.rec(Event{Ev: "call", P: p, K: mk})
+	ce := Event{Ev: "call", P: p, K: mk, TTL: r.cfg.Cell0[p]}
+	if r.cfg.Skip[p] {
+		ce.C = "skip"
+	}
+
+	if r.cfg.HasCell[p] {
+		ce.N = 1
+	} else {
+		ce.TTL = 0
+	}
+
+	r.s.rec(ce)
 
 	go func() {
 		v, err := r.fo.Get(ctx, buf, func(bctx context.Context) (string, error) {
@@ -186,26 +197,18 @@ func (r *foRun) result(p string) foResJ {
 
 func (r *foRun) driftf(f string, a ...interface{}) { r.drift = append(r.drift, fmt.Sprintf(f, a...)) }
 
-// prepare writes the initial backend / failure-cache content at tick 0.
-func (r *foRun) prepare() {
+// prepare writes the initial backend / failure-cache content (first entry of the schedule) at tick 0.
+func (r *foRun) prepare(init foSnapJ) {
 	bg := context.Background()
 
-	for k, e := range r.cfg.InitBe {
-		if e == nil {
-			continue
-		}
-
-		_ = r.fo.Backend().Write(cache.WithTTL(bg, TickDur(e.E, r.u), false), r.km.ByModel[k], e.V)
-		r.s.rec(Event{Ev: "prep", K: k, V: e.V, E: e.E})
+	for _, e := range init.Be {
+		_ = r.fo.Backend().Write(cache.WithTTL(bg, TickDur(e.E, r.u), false), r.km.ByModel[e.K], e.V)
+		r.s.rec(Event{Ev: "prep", K: e.K, V: e.V, E: e.E})
 	}
 
-	for k, e := range r.cfg.InitErrs {
-		if e == nil {
-			continue
-		}
-
-		r.fo.ErrsWrite(cache.WithTTL(bg, TickDur(e.E, r.u), false), r.km.ByModel[k], e.V)
-		r.s.rec(Event{Ev: "preperr", K: k, Err: e.V, E: e.E})
+	for _, e := range init.Errs {
+		r.fo.ErrsWrite(cache.WithTTL(bg, TickDur(e.E, r.u), false), r.km.ByModel[e.K], e.V)
+		r.s.rec(Event{Ev: "preperr", K: e.K, Err: e.V, E: e.E})
 	}
 }
 
@@ -290,7 +293,11 @@ func (r *foRun) compareSnap(where string, want foSnapJ) {
 // exec runs the schedule in lockstep; on the first drift it stops steering and drains.
 func (r *foRun) exec(b []foStepJ) {
 	r.t0 = time.Now()
-	r.prepare()
+
+	if len(b) > 0 && b[0].Name == "Init" {
+		r.prepare(b[0].St)
+		b = b[1:]
+	}
 
 	for i, m := range macros(b) {
 		time.Sleep(Eps)
@@ -444,6 +451,7 @@ func runFoSchedule(t *testing.T, cfg FoCfg, bi int, b []foStepJ, seed int64) (ou
 	defer func() {
 		if p := recover(); p != nil {
 			out.Panic = fmt.Sprint(p)
+			s.rec(Event{Ev: "panic", Note: out.Panic})
 			out.Events = s.events
 			out.Drift = r.drift
 		}
@@ -458,6 +466,16 @@ func runFoSchedule(t *testing.T, cfg FoCfg, bi int, b []foStepJ, seed int64) (ou
 
 		// Quiescence: nothing parked, every Get returned.
 		synctest.Wait()
+
+		if cfg.StatOn {
+			s.rec(Event{Ev: "metric", C: "build", N: stat.Total(cache.MetricBuild, foName)})
+			s.rec(Event{Ev: "metric", C: "failed", N: stat.Total(cache.MetricFailed, foName)})
+			s.rec(Event{Ev: "metric", C: "refreshed", N: stat.Total(cache.MetricRefreshed, foName)})
+		}
+
+		s.rec(Event{Ev: "metric", C: "be_reads", N: stat.Total(cache.MetricHit, "be") +
+			stat.Total(cache.MetricMiss, "be") + stat.Total(cache.MetricExpired, "be")})
+		s.rec(Event{Ev: "metric", C: "be_write", N: stat.Total(cache.MetricWrite, "be")})
 
 		q := Event{Ev: "quiesce", N: r.fo.KeyLocks()}
 		for _, p := range cfg.Procs {
